@@ -644,55 +644,21 @@ Proof.
   - rewrite (bank_subst_miniaod ty _ (Hty eq_refl)). apply literal_at_app.
 Qed.
 
-(* the second substitution runs over the text that the first one produced: an object name made of
-   word characters after the i_obj stem (what unique_name returns) is passed over untouched *)
-Lemma replace_word_skip : forall (w d x r : string),
-  all_s is_word x = true ->
-  replace_word_aux w d 0 true (x +++ r) = x +++ replace_word_aux w d 0 true r.
+(* one pass over the getAttribute line: object name and attribute literal are both inserted unchanged *)
+Lemma attr_subst : forall obj d : string,
+  subst_line [("obj_j", obj); ("moment_name", d)] "auto result = obj_j->getAttribute<float>(moment_name);" =
+  "auto result = " +++ obj +++ "->getAttribute<float>(" +++ d +++ ");".
+Proof. intros obj d. vm_compute. reflexivity. Qed.
+
+Lemma attribute_line_literal : forall (obj attr : string),
+  exists line, attribute_line obj attr = OK line /\
+    literal_at ("auto result = " +++ obj +++ "->getAttribute<float>(") line = Some (LStr attr, ");").
 Proof.
-  intros w d. induction x as [|c x IH]; intros r H.
-  - reflexivity.
-  - simpl in H. apply andb_true_iff in H. destruct H as [Hc Hx].
-    cbn [String.append replace_word_aux]. rewrite Hc, (IH r Hx). reflexivity.
-Qed.
-
-Lemma replace_word_no_occurrence : forall (w d x : string) (b : bool),
-  all_s is_word x = true ->
-  replace_word_aux w d 0 true x = x.
-Proof.
-  intros w d x b H. rewrite <- (app_nil_r_s x) at 1. rewrite replace_word_skip by exact H.
-  now rewrite app_nil_r_s.
-Qed.
-
-Lemma attr_subst_obj : forall d : string,
-  replace_word "obj_j" d "auto result = obj_j->getAttribute<float>(moment_name);" =
-  "auto result = " +++ d +++ "->getAttribute<float>(moment_name);".
-Proof. intros d. vm_compute. reflexivity. Qed.
-
-Lemma attr_subst_pre : forall d rest : string,
-  replace_word_aux "moment_name" d 0 false ("auto result = i_obj" +++ rest) =
-  "auto result = i_obj" +++ replace_word_aux "moment_name" d 0 true rest.
-Proof. intros d rest. vm_compute. reflexivity. Qed.
-
-Lemma attr_subst_post : forall d : string,
-  replace_word_aux "moment_name" d 0 true "->getAttribute<float>(moment_name);" =
-  "->getAttribute<float>(" +++ d +++ ");".
-Proof. intros d. vm_compute. reflexivity. Qed.
-
-Lemma attribute_line_literal : forall (k attr : string), all_s is_word k = true ->
-  exists line, attribute_line ("i_obj" +++ k) attr = OK line /\
-    literal_at ("auto result = i_obj" +++ k +++ "->getAttribute<float>(") line = Some (LStr attr, ");").
-Proof.
-  intros k attr Hk. unfold attribute_line. rewrite render_str.
+  intros obj attr. unfold attribute_line. rewrite render_str.
   eexists. split; [reflexivity|].
-  unfold subst_line. cbn [fold_left fst snd].
-  rewrite attr_subst_obj. unfold replace_word.
-  rewrite !app_assoc_s. rewrite <- (app_assoc_s "auto result = " "i_obj").
-  change ("auto result = " +++ "i_obj") with "auto result = i_obj".
-  rewrite attr_subst_pre, replace_word_skip by exact Hk.
-  rewrite attr_subst_post.
-  rewrite <- !app_assoc_s.
-  rewrite (app_assoc_s ("auto result = i_obj" +++ k +++ "->getAttribute<float>(")).
-  rewrite (app_assoc_s "auto result = i_obj" k) at 1.
+  rewrite attr_subst.
+  replace ("auto result = " +++ obj +++ "->getAttribute<float>(" +++ cpp_string_literal attr +++ ");")
+    with (("auto result = " +++ obj +++ "->getAttribute<float>(") +++ cpp_string_literal attr +++ ");")
+    by (now rewrite !app_assoc_s).
   apply literal_at_app.
 Qed.
